@@ -800,3 +800,76 @@ Proof.
   - cbn. repeat split; vm_compute; intuition discriminate.
   - vm_compute. split; [tauto|]. split; [intuition discriminate|]. split; [tauto|intuition discriminate].
 Qed.
+
+(* ================================================================== *)
+(* what the covering test of isolate_actor guarantees, and what it does not *)
+
+(* [seq_index] positions are seq - 1 (asserted by ChangeGraph::add_changes) *)
+Definition SeqIdx (appl : list change) (a : actor) : Prop :=
+  forall i c, nth_error (actor_changes appl a) i = Some c -> ch_seq c = N.of_nat i + 1.
+
+(* a later change of the actor reaches a higher op counter: true when none of them is empty *)
+Definition StrictOps (appl : list change) (a : actor) : Prop :=
+  forall c1 c2, In c1 appl -> In c2 appl -> ch_actor c1 = a -> ch_actor c2 = a ->
+    ch_seq c1 < ch_seq c2 -> max_op c1 < max_op c2.
+
+Lemma actor_changes_in appl a c : In c (actor_changes appl a) <-> In c appl /\ ch_actor c = a.
+Proof. unfold actor_changes. rewrite filter_In, QueueProofs.same_actor_spec. tauto. Qed.
+
+(* Under these two conditions the actor an isolated transaction writes as has its previous
+   change among the ancestors of the isolation heads: the new change continues the actor's chain *)
+Theorem isolated_prev_is_ancestor appl heads a hs m p :
+  commit_meta appl heads a (Some hs) = Ok m ->
+  SeqIdx appl (cm_actor m) -> StrictOps appl (cm_actor m) ->
+  prev_change appl (cm_actor m) = Some p -> 1 <= max_op p ->
+  In p (ancestors appl hs).
+Proof.
+  intros H Hsi Hso Hp Hmo.
+  destruct (commit_deps_isolated _ _ _ _ _ H) as [_ [_ [j [_ [Hc _]]]]].
+  set (ai := cm_actor m) in *. unfold prev_change in Hp.
+  unfold max_op_for_actor in Hc. rewrite Hp in Hc. destruct Hc as [Hc|Hc]; [lia|].
+  unfold clock_at_get in Hc.
+  destruct (seq_clock_at appl hs ai =? 0) eqn:E0; [lia|]. apply N.eqb_neq in E0.
+  destruct (nth_error (actor_changes appl ai) (N.to_nat (seq_clock_at appl hs ai - 1))) as [c'|] eqn:En; [|lia].
+  pose proof (Hsi _ _ En) as Hs'.
+  (* the ancestor that carries the clock's seq is that change *)
+  unfold seq_clock_at in *. fold (sfold ai (ancestors appl hs) 0) in *.
+  destruct (sfold_witness ai (ancestors appl hs) 0) as [Ew|[c'' [Hc'' [Ha'' Hs'']]]]; [congruence|].
+  assert (Hin'' : In c'' (actor_changes appl ai)).
+  { apply actor_changes_in. split; [eapply ancestors_incl; exact Hc''|exact Ha'']. }
+  destruct (In_nth_error _ _ Hin'') as [k Hk]. pose proof (Hsi _ _ Hk) as Hsk.
+  assert (k = N.to_nat (sfold ai (ancestors appl hs) 0 - 1)) by lia. subst k.
+  rewrite En in Hk. inversion Hk; subst c''. clear Hk Hsk.
+  (* p is the last one *)
+  pose proof (nth_error_last (actor_changes appl ai)) as Hl. rewrite Hp in Hl.
+  pose proof (Hsi _ _ Hl) as Hsp.
+  assert (Hlen : (N.to_nat (sfold ai (ancestors appl hs) 0 - 1) < length (actor_changes appl ai))%nat)
+    by (apply nth_error_Some; congruence).
+  destruct (Nat.eq_dec (N.to_nat (sfold ai (ancestors appl hs) 0 - 1)) (length (actor_changes appl ai) - 1)) as [Ee|Ene].
+  - rewrite Ee in En. rewrite En in Hl. inversion Hl; subst. exact Hc''.
+  - exfalso. assert (Hlt : ch_seq c' < ch_seq p) by lia.
+    apply last_opt_in in Hp. apply actor_changes_in in Hp. apply actor_changes_in in Hin''.
+    pose proof (Hso c' p (proj1 Hin'') (proj1 Hp) (proj2 Hin'') (proj2 Hp) Hlt). lia.
+Qed.
+
+(* ... and without the second condition it fails in a reachable state: after a change and an
+   EMPTY change of one actor, a transaction isolated at the first change is written by the same
+   actor with seq 3 and does not descend from the seq-2 change: the actor's changes no longer
+   form a chain *)
+Theorem isolated_commit_breaks_chain :
+  exists steps m, run_fresh m_empty steps /\ m_run m_empty steps = Ok m /\ ~ ActorChain (applied (m_doc m)).
+Proof.
+  exists witness_steps.
+  destruct (m_run m_empty witness_steps) as [m| |] eqn:E; [|vm_compute in E; discriminate|vm_compute in E; discriminate].
+  exists m. split; [cbn; repeat split; vm_compute; intuition discriminate|]. split; [reflexivity|].
+  pose proof (MInv_run witness_steps m_empty m MInv_empty) as Hi.
+  assert (Hb : Built (applied (m_doc m))).
+  { apply Hi; [cbn; repeat split; vm_compute; intuition discriminate|exact E]. }
+  vm_compute in E. inversion E; subst m; clear E Hi. cbn [m_doc applied] in *.
+  intros [_ [_ Hch]].
+  specialize (Hch (mkChange 2 [7] 2 2 [1] []) (mkChange 3 [7] 3 2 [1] [dummy_op])).
+  assert (Ha : Anc [mkChange 1 [7] 1 1 [] [dummy_op]; mkChange 2 [7] 2 2 [1] []; mkChange 3 [7] 3 2 [1] [dummy_op]]
+                   [3] (mkChange 2 [7] 2 2 [1] [])).
+  { apply Hch; [right; left; reflexivity|right; right; left; reflexivity|reflexivity|reflexivity]. }
+  apply (Built_anc_iff _ _ _ Hb) in Ha. vm_compute in Ha. intuition discriminate.
+Qed.
